@@ -80,6 +80,49 @@ class PrngChooser:
         return pick
 
 
+class PctChooser:
+    """PCT-style schedules (Burckhardt et al., "A randomized scheduler with probabilistic guarantees of finding bugs"):
+    tasks get random priorities, the highest-priority runnable task always runs, and at d pre-drawn change points
+    (the n-th traced line event of a task) the running task drops to the lowest priority.  The result is a schedule with
+    very few context switches in which one task is suspended at a random line of the focus file while the others run long
+    stretches - the shape an atomicity violation needs, and one that per-line coin flips almost never produce because the
+    other task is itself pre-empted long before it reaches the conflicting code.  Change-point indexes are drawn
+    log-uniformly in [1, kmax] (the number of traced lines per task is unknown in advance)."""
+
+    def __init__(self, rng, tids, d=1, kmax=4000):
+        import math
+        self.prio = list(tids)
+        rng.shuffle(self.prio)
+        self.points = {}
+        for t in tids:
+            self.points[t] = set(int(math.exp(rng.uniform(0.0, math.log(kmax)))) for _ in range(d))
+        self.count = dict((t, 0) for t in tids)
+        self.recorded = []
+
+    def _best(self, candidates):
+        for t in self.prio:
+            if t in candidates:
+                return t
+        return candidates[0]
+
+    def at_label(self, cur, dp, runnable):
+        if cur in runnable:
+            return cur
+        pick = self._best(runnable)
+        self.recorded.append([cur, dp, pick])
+        return pick
+
+    def at_line(self, cur, dp, others, filename=None):
+        self.count[cur] = self.count.get(cur, 0) + 1
+        if others and self.count[cur] in self.points.get(cur, ()):
+            self.prio.remove(cur)
+            self.prio.append(cur)
+            pick = self._best(others)
+            self.recorded.append([cur, dp, pick])
+            return pick
+        return cur
+
+
 class ListChooser:
     """Replay: explicit decisions; anything not listed means 'keep running' (or, when the
     current task cannot continue, the lowest runnable task)."""
@@ -109,13 +152,14 @@ class ListChooser:
 
 
 class Scheduler:
-    def __init__(self, chooser, labels, trace_prefixes=None, trace_exclude=(), on_event=None):
+    def __init__(self, chooser, labels, trace_prefixes=None, trace_exclude=(), on_event=None, trace_contains=None):
         """labels: set of label names that are decision points in this run.
         trace_prefixes: tuple of filename prefixes whose frames get line-level pre-emption."""
         self.chooser = chooser
         self.labels = set(labels)
         self.trace_prefixes = tuple(trace_prefixes) if trace_prefixes else None
         self.trace_exclude = tuple(trace_exclude)
+        self.trace_contains = trace_contains        # only frames of files whose path contains this get line events
         self.tasks = {}
         self.sem = threading.Semaphore(0)
         self.current = None
@@ -166,6 +210,8 @@ class Scheduler:
         r = self._code_cache.get(filename)
         if r is None:
             r = filename.startswith(self.trace_prefixes) and not filename.endswith(self.trace_exclude)
+            if r and self.trace_contains is not None:
+                r = self.trace_contains in filename
             self._code_cache[filename] = r
         return r
 
